@@ -37,7 +37,8 @@ def main():
     missed = []
     for n in names:
         meta = json.load(open(os.path.join(root, n, 'meta.json')))
-        pid = meta['property']
+        # (detecting_property: set where a change written against one property actually violates another one, see DESIGN.md 9.6)
+        pid = meta.get('detecting_property', meta['property'])
         d = tempfile.mkdtemp(prefix='recheck.', dir='/tmp')
         try:
             rc, out = sh(f'git -C /repo archive HEAD | tar -x -C {d}')
